@@ -4,6 +4,7 @@ package c17
 import (
 	"encoding/json"
 	"fmt"
+	"io"
 	"net"
 	"os"
 	"runtime"
@@ -327,6 +328,122 @@ func runLate(rec *vcommon.Rec, carrier, closer string, quiet time.Duration) {
 	rec.Stat("bytes_verified_before_eof", c.Len)
 }
 
+// runSiblingAbort: while one logical connection carries a paced transfer that ends with an orderly close, a sibling on
+// the same session ends abnormally (its application closes with unread data pending, so its socket is reset; or its target
+// does). The orderly one must still deliver everything, then end-of-stream.
+func runSiblingAbort(rec *vcommon.Rec, carrier, closer, aborter string) {
+	c := &c17Case{Carrier: carrier, Closer: closer, Mode: "sibling-aborts:" + aborter, Len: 1 << 20, Seed: rec.Seed()*10000 + 9500}
+	rec.Mark(c)
+	p, err := e2e.Start(e2e.Options{Carrier: carrier, Tag: "s"})
+	if err != nil {
+		rec.Violation(carrier+":setup-failed", c, err.Error())
+		return
+	}
+	defer p.Close()
+	app, tgt, o, err := p.Open("echo")
+	if err != nil || o != e2e.Done {
+		rec.Inconclusive("sibling: open failed", c)
+		return
+	}
+	defer app.Close()
+	defer tgt.Close()
+	sapp, stgt, o, err := p.Open("echo")
+	if err != nil || o != e2e.Done {
+		rec.Inconclusive("sibling: second open failed", c)
+		return
+	}
+	defer sapp.Close()
+	defer stgt.Close()
+	w, r, dir := app, tgt, "c2t"
+	if closer == "target" {
+		w, r, dir = tgt, app, "t2c"
+	}
+	calls := 0
+	half := make(chan struct{})
+	st := &e2e.Stream{Key: uint64(c.Seed) + 1, Len: c.Len, Seg: func() int {
+		calls++
+		if calls == 8 {
+			close(half)
+		}
+		time.Sleep(15 * time.Millisecond) // paced: the transfer is in flight while the sibling dies
+		return 16384
+	}}
+	var wf, rf *e2e.Failure
+	wd := e2e.Go(func() {
+		if _, err := e2e.WriteStream(w, st); err != nil {
+			wf = &e2e.Failure{Kind: dir + ":write-error-before-close", Info: map[string]interface{}{"err": err.Error()}}
+			return
+		}
+		w.Close()
+	})
+	rd := e2e.Go(func() {
+		if _, rf = e2e.ReadStream(r, st, nil); rf != nil {
+			rf.Kind = dir + ":" + rf.Kind
+			return
+		}
+		rf = e2e.ExpectEOF(r, dir)
+	})
+	// the sibling: its far end keeps sending, its near end reads a little and closes with the rest unread
+	ab := e2e.Go(func() {
+		select {
+		case <-half:
+		case <-wd:
+			return
+		}
+		near, far := sapp, stgt
+		if aborter == "target" {
+			near, far = stgt, sapp
+		}
+		stop := make(chan struct{})
+		flood := e2e.Go(func() {
+			buf := make([]byte, 8192)
+			for i := 0; i < 4096; i++ {
+				select {
+				case <-stop:
+					return
+				default:
+				}
+				if _, err := far.Write(buf); err != nil {
+					return
+				}
+			}
+		})
+		b := make([]byte, 1024)
+		io.ReadFull(near, b)
+		time.Sleep(100 * time.Millisecond)
+		if l, ok := near.(interface{ SetLinger(int) error }); ok {
+			l.SetLinger(0)
+		}
+		near.Close()
+		time.Sleep(300 * time.Millisecond)
+		close(stop)
+		far.Close()
+		<-flood
+		rec.Stat("siblings_aborted", 1)
+	})
+	out := e2e.Wait(e2e.Go(func() { <-wd; <-rd; <-ab }))
+	rec.Case(fmt.Sprintf("sibling/%s/%s/%s", carrier, closer, aborter), out != e2e.Inconclusive)
+	rec.Seen("tuple(carrier,closer,mode,len-class,others,reverse)", fmt.Sprintf("%s|%s|sibling-aborts-%s|%s|1|idle", carrier, closer, aborter, lenName(c.Len)))
+	f := wf
+	if f == nil {
+		f = rf
+	}
+	if out == e2e.Stalled && f == nil {
+		f = &e2e.Failure{Kind: dir + ":stalled-before-end-of-stream"}
+	}
+	if out == e2e.Inconclusive {
+		rec.Inconclusive("busy at watchdog", c)
+		return
+	}
+	if f != nil {
+		rec.Violation(fmt.Sprintf("%s:closer=%s:sibling-aborts:%s", carrier, closer, f.Kind), c, f.Info)
+		return
+	}
+	rec.Stat("closes_verified", 1)
+	rec.Stat("closes_verified_while_a_sibling_aborted", 1)
+	rec.Stat("bytes_verified_before_eof", c.Len)
+}
+
 func TestVerifC17(t *testing.T) {
 	e2e.Quiet()
 	rec := vcommon.Open()
@@ -358,6 +475,15 @@ func TestVerifC17(t *testing.T) {
 		for i, l := range late {
 			if rec.Mine(len(carriers) + i) {
 				runLate(rec, l.carrier, l.closer, time.Duration(rec.Pick(35, 65))*time.Second)
+			}
+		}
+	}
+	if os.Getenv("VERIF_CARRIERS") == "" {
+		// sibling-abort items come after the late-close items in the shard numbering
+		sib := []struct{ carrier, closer, aborter string }{{"tcp", "target", "app"}, {"tcp", "app", "target"}, {"ws", "target", "app"}, {"udp", "app", "app"}, {"tcp+starttls", "target", "target"}, {"unix", "target", "app"}}
+		for i, x := range sib {
+			if rec.Mine(len(carriers) + 5 + i) {
+				runSiblingAbort(rec, x.carrier, x.closer, x.aborter)
 			}
 		}
 	}
